@@ -14,7 +14,8 @@ Reads the CURRENT sources of /repo with python `ast` (gemclus is never imported)
                         MRO-resolved `get_gemini` as a decision tree, and `_compute_kernel` (KernelRIM, Kauri)
 
 `StrOptions(...)` arguments are evaluated against scikit-learn's constant tables (scikit-learn is imported,
-gemclus is not).  Any statement outside the accepted skeletons raises TranslationFailure (the tie is then broken
+gemclus is not).  Decision trees are read off `if` / `elif` / `else` chains with early `return`s; a test `not T` swaps the
+two branches of the test `T`.  Any statement outside the accepted skeletons raises TranslationFailure (the tie is then broken
 and the check starts its failing-input search).
 """
 import ast
@@ -332,6 +333,14 @@ def _local_value(node, env, where):
     return _aff_expr(node, env, where)
 
 
+def _strip_not(st):
+    """`if not T: A else: B` is `if T: B else: A` (T is evaluated once either way; `not` negates its truth value)"""
+    test, then, other = st.test, list(st.body), list(st.orelse)
+    while isinstance(test, ast.UnaryOp) and isinstance(test.op, ast.Not):
+        test, then, other = test.operand, other, then
+    return test, then, other
+
+
 def _aff_tree(stmts, env, where):
     if not stmts:
         return ("ret", ("noneVal",))  # falling off the end returns None
@@ -355,8 +364,8 @@ def _aff_tree(stmts, env, where):
         env[st.targets[0].id] = _local_value(st.value, env, where)
         return _aff_tree(rest, env, where)
     if isinstance(st, ast.If):
-        return ("ite", _aff_test(st.test, where), _aff_tree(list(st.body) + rest, env, where),
-                _aff_tree(list(st.orelse) + rest, env, where))
+        test, then, other = _strip_not(st)
+        return ("ite", _aff_test(test, where), _aff_tree(then + rest, env, where), _aff_tree(other + rest, env, where))
     # comments are not statements; anything else is outside the skeleton
     raise TranslationFailure(f"{where}: unsupported statement {ast.dump(st)[:100]}")
 
@@ -415,8 +424,9 @@ def _gem_tree(stmts, gemini_classes, where):
     if isinstance(st, ast.Return) and st.value is not None:
         return ("ret", _gem_expr(st.value, gemini_classes, where))
     if isinstance(st, ast.If):
-        return ("ite", _gem_test(st.test, where), _gem_tree(list(st.body) + rest, gemini_classes, where),
-                _gem_tree(list(st.orelse) + rest, gemini_classes, where))
+        test, then, other = _strip_not(st)
+        return ("ite", _gem_test(test, where), _gem_tree(then + rest, gemini_classes, where),
+                _gem_tree(other + rest, gemini_classes, where))
     raise TranslationFailure(f"{where}: unsupported statement {ast.dump(st)[:100]}")
 
 
